@@ -6,6 +6,8 @@ package keystore
 
 /*@
 immutable "github.com/libp2p/go-libp2p-kad-dht/provider/keystore.ErrClosed"
+immutable field keystore.close
+immutable field keystore.done
 immutable "github.com/libp2p/go-libp2p-kad-dht/provider/keystore.activeNamespaceKey"
 immutable "github.com/libp2p/go-libp2p-kad-dht/provider/keystore.sizeKey"
 
@@ -132,7 +134,7 @@ func NewResettableKeystore(d ds.Batching, opts ...ResettableKeystoreOption) (*Re
   # the worker is started with both signal channels made
   ghost at go(worker): $spawned = true; assert(rks.close != nil && rks.done != nil)
   # WithDatastoreFactory (the only writer of these two fields) rejects a nil create or destroy: ASSUMED here
-  ghost at call(getResettableOpts): assume(rcfg.createDs == nil || rcfg.destroyDs != nil)
+  ghost at call(getResettableOpts): assume($ret0.createDs == nil || $ret0.destroyDs != nil)
 
 func (s *keystore) worker()
   props C14
